@@ -106,6 +106,12 @@ def cache_helper(fx, name):
         return _cache[key]
     out = []
     for p, b in fx.bodies.items():
+        if name == "find_range_by_binary_search" and b["krate"] == "proguard" and b["kind"] == "Fn" and "cache::" in p:
+            # (the equal-range search has no `self`: it may live as a free function of the cache module or of a private submodule)
+            i, o = sig(b)
+            if len(i) == 2 and i[0] == "&[cache::raw::Member]" and o == "std::option::Option<&[cache::raw::Member]>":
+                out.append(p)
+            continue
         if b["krate"] != "proguard" or b["kind"] != "AssocFn" or b.get("impl_trait") or "cache::raw::ProguardCache" not in (b.get("impl_self") or ""):
             continue
         i, o = sig(b)
